@@ -181,7 +181,10 @@ impl Report {
             for e in &self.machinery_errors {
                 eprintln!("MACHINERY-ERROR: {e}");
             }
-            return 2;
+            // a violation that was found and printed stays a verdict; without one the run decides nothing
+            if violations == 0 {
+                return 2;
+            }
         }
         if violations > 0 { 1 } else { 0 }
     }
